@@ -147,7 +147,7 @@ def c_arbiter(nm):
                 else:
                     h.ensure(f"ens.{dirn}.resp.{c}{i}", z3.And(b(h.v(me.valid)) == z3.And(own, b(h.v(te.valid))), z3.Implies(b(h.v(me.valid)), paytok(h, me) == paytok(h, te)), z3.Implies(own, h.v(te.ready) == h.v(me.ready))))
             others_idle = z3.And(*[z3.Not(z3.Or(*[b(h.v(getattr(o, c).valid)) for c in (("aw", "w") if dirn == "wr" else ("ar",))])) for j, o in enumerate(masters) if j != i])
-            wants = b(h.v(getattr(m, "aw" if dirn == "wr" else "ar").valid))
+            wants = z3.Or(b(h.v(m.aw.valid)), b(h.v(m.w.valid))) if dirn == "wr" else b(h.v(m.ar.valid))       # a master that presents W before its AW (legal) is requesting too
             h.respond(f"resp.{dirn}.serve{i}", z3.And(wants, others_idle, cnt == K(0, CW), z3.Not(b(h.v(rsp_ep.valid)))), own, 2 + nm)
     h.cover("cover.switch", h.n(d.rr_write.grant) != h.v(d.rr_write.grant), depth=4)
     h.functions = ["litex.soc.interconnect.axi.axi_lite.AXILiteArbiter.__init__", "litex.soc.interconnect.axi.axi_lite._AXILiteRequestCounter.__init__", "migen.genlib.roundrobin.RoundRobin (flattened)"]
